@@ -53,7 +53,8 @@ deriving Repr, BEq, DecidableEq
 
 /-- `Context` -/
 structure Ctx where
-  opt : Opt
+  nodesLimit : Nat                        -- the only field of `opt` the builder reads
+  positions : Bool                        -- the `positions` cargo feature
   nsStartIdx : Nat := 1
   curAttrs : List TempAttr := []          -- in push order
   awaiting : List Nat := []               -- in push order
@@ -75,10 +76,9 @@ namespace LD
 def incDepth (ld : LD) : Option LD :=
   if ld.depth < 10 then some { ld with depth := ld.depth + 1 } else none
 
-/-- `dec_depth` -/
+/-- `dec_depth`: `if depth > 0 { depth -= 1 }; if depth == 0 { references = 0 }` -/
 def decDepth (ld : LD) : LD :=
-  let d := if ld.depth > 0 then ld.depth - 1 else ld.depth
-  if d == 0 then ⟨d, 0⟩ else ⟨d, ld.refs⟩
+  if ld.depth > 1 then ⟨ld.depth - 1, ld.refs⟩ else ⟨0, 0⟩
 
 /-- `inc_references` -/
 def incRefs (ld : LD) : Option LD :=
@@ -165,10 +165,10 @@ def setNextSubtree (nodes : Array NodeData) (new : Nat) : List Nat → Res (Arra
 
 /-- `Context::append_node` (parse.rs:515-551) -/
 def appendNode (c : Ctx) (kind : Kind) (range : Range) : Res (Ctx × Nat) :=
-  if c.doc.nodes.size ≥ c.opt.nodesLimit then .err .nodesLimitReached
+  if c.doc.nodes.size ≥ c.nodesLimit then .err .nodesLimitReached
   else do
     let newId ← Api.nodeIdNew c.doc.nodes.size
-    let range := if c.opt.positions then range else (0, 0)
+    let range := if c.positions then range else (0, 0)
     let nodes := c.doc.nodes.push
       { parent := some c.parentId, prevSibling := none, nextSubtree := none, lastChild := none,
         kind := kind, range := range }
@@ -268,14 +268,18 @@ def resolveNamespaces (c : Ctx) : Res (Ctx × Range) := do
       pure (c, (c.nsStartIdx, c.doc.ns.treeOrder.size))
   | _ => pure (c, (c.nsStartIdx, c.doc.ns.treeOrder.size))
 
+/-- The namespace of one attribute (the `if` chain at the head of the loop of
+`resolve_attributes`). -/
+def attrNsIdx (doc : Doc) (nss : Range) (a : TempAttr) : Res (Option Nat) :=
+  if a.pfx.bytes == Lit.xml then .ok (some 0)
+  else if a.pfx.bytes.isEmpty then .ok none
+  else getNsIdxByPrefix txt doc nss a.range.1 a.pfx.bytes
+
 /-- The loop of `resolve_attributes`. -/
 def resolveAttrsLoop (positions : Bool) (nss : Range) (startIdx : Nat) : List TempAttr → Doc → Res Doc
   | [], doc => .ok doc
   | a :: r, doc => do
-    let nsIdx ←
-      if a.pfx.bytes == Lit.xml then pure (some 0)
-      else if a.pfx.bytes.isEmpty then pure none
-      else getNsIdxByPrefix txt doc nss a.range.1 a.pfx.bytes
+    let nsIdx ← attrNsIdx txt doc nss a
     let en ← Api.expandedName doc nsIdx a.loc
     let existing := (List.range (doc.attrs.size - startIdx)).map (· + startIdx)
     let dup ← existing.anyM fun k => do
@@ -298,7 +302,7 @@ def resolveAttributes (c : Ctx) (nss : Range) : Res (Ctx × Range) :=
   else if c.doc.attrs.size + c.curAttrs.length ≥ 4294967295 then .err .attributesLimitReached
   else do
     let startIdx := c.doc.attrs.size
-    let doc ← resolveAttrsLoop txt c.opt.positions nss startIdx c.curAttrs c.doc
+    let doc ← resolveAttrsLoop txt c.positions nss startIdx c.curAttrs c.doc
     pure ({ c with doc := doc, curAttrs := [] }, (startIdx, doc.attrs.size))
 
 def genQNameString (pfx loc : Bytes) : Bytes :=
@@ -329,7 +333,7 @@ def processElement (c : Ctx) (e : EndKind) (tokRange : Range) : Res Ctx := do
         match c.parentPrefixes with
         | [] => .panic "parent_prefixes.last().unwrap()"
         | parentPrefix :: restPrefixes =>
-          let p := if c.opt.positions then { p with range := (p.range.1, tokRange.2) } else p
+          let p := if c.positions then { p with range := (p.range.1, tokRange.2) } else p
           let c := c.setNode c.parentId p
           let mismatch : Option (Bytes × Bytes) :=
             match p.kind with
@@ -506,6 +510,13 @@ def runTokens {α} (step : Token → Ctx → Res Ctx) (toks : List Token) (stop 
     | .fuel => .fuel
   | r => r
 
+/-- `if !text_buffer.is_empty() { ctx.append_text(Cow::Owned(text_buffer.finish()), range)? }` -/
+def flushBuffer (c : Ctx) (buf : TextBuffer) (range : Range) : Res Ctx :=
+  if !buf.isEmpty then do
+    let out ← buf.finish
+    c.appendText (.owned out) range
+  else .ok c
+
 /-- The chunk loop of `process_text`; `lower` is the builder one entity level deeper. -/
 def processTextLoop (lower : Token → Ctx → Res Ctx) (range : Range) :
     Nat → Stream → TextBuffer → Ctx → Res (TextBuffer × Ctx)
@@ -521,10 +532,7 @@ def processTextLoop (lower : Token → Ctx → Res Ctx) (range : Range) :
         if c.ld.depth > 0 then processTextLoop lower range fuel s (buf.pushBytesText bytes) c
         else processTextLoop lower range fuel s (buf.pushBytesRaw bytes) c
       | .text fragment => do
-        let c ← if !buf.isEmpty then do
-            let out ← buf.finish
-            c.appendText (.owned out) range
-          else pure c
+        let c ← flushBuffer c buf range
         match c.ld.incRefs with
         | none => errAt txt .entityReferenceLoop s.pos
         | some ld1 =>
@@ -553,10 +561,7 @@ def processText (lower : Token → Ctx → Res Ctx) (c : Ctx) (text : Span) (ran
   else do
     let s := Stream.ofRange txt range.1 range.2
     let (buf, c) ← processTextLoop T txt lower range (s.rest.length + 1) s {} c
-    if !buf.isEmpty then do
-      let out ← buf.finish
-      c.appendText (.owned out) range
-    else pure c
+    flushBuffer c buf range
 
 /-- `<Context as XmlEvents>::token`; `lower` handles tokens that come out of an entity. -/
 def tokenStep (lower : Token → Ctx → Res Ctx) (t : Token) (c : Ctx) : Res Ctx := do
